@@ -14,7 +14,8 @@ SEPARATORS = ("...", "…", ":")
 
 _ESCAPES = {"t": 9, "n": 10, "r": 13, "\\": 92, "'": 39, '"': 34, "a": 7, "b": 8, "f": 12, "v": 11, "0": 0}
 
-_INT_RE = re.compile(r"-?(?:0[xX][0-9a-fA-F]+|0|[1-9][0-9]*)")
+# decimal integers may carry leading zeros ("01...12" for months)
+_INT_RE = re.compile(r"-?(?:0[xX][0-9a-fA-F]+|[0-9]+)")
 _DEC_RE = re.compile(r"-?(?:0|[1-9][0-9]*)(?:\.[0-9]+)?")
 _NAME_RE = re.compile(r"[A-Za-z]+")
 
@@ -102,7 +103,7 @@ def _tokens(text, decimal):
             if decimal:
                 out.append(("limit", Decimal(s)))
             else:
-                out.append(("limit", int(s, 0)))
+                out.append(("limit", int(s, 0) if s.lstrip("-")[:2].lower() == "0x" else int(s, 10)))
             i = j
             continue
         m = _NAME_RE.match(text, i)
